@@ -49,7 +49,7 @@ def apply_op(o, op, new):
         p.reverse()
 
 
-def ob_history(op, k, cycles, dname):
+def ob_history(op, k, cycles, dname, ps=None):
     direction = DIRS[dname]
 
     def f():
@@ -64,7 +64,7 @@ def ob_history(op, k, cycles, dname):
             def step(o, c):
                 snap(o)          # the population exactly as it stood after cycle c-1
                 apply_op(o, op, gens[c])
-            opt = Scripted(M.BaseOptimizationConfig(population_size=k, fitness_error=None, max_cycles=cycles),
+            opt = Scripted(M.BaseOptimizationConfig(population_size=ps or k, fitness_error=None, max_cycles=cycles),
                            init=lambda o: list(gens[0]), step=step)
             res = opt.optimize(make_task([cont()], lambda x, i: 0.0, minmax=direction))
             snap(opt)
@@ -149,6 +149,9 @@ def obligations(tier):
         for d in ("min", "max"):
             for k, cycles in ((2, 2),) + (((3, 2), (2, 3)) if th else ((3, 1),)):
                 obs.append(Ob(f"history[{op},k={k},cycles={cycles},{d}]", ob_history(op, k, cycles, d), 600))
+    for d in ("min", "max"):          # live population larger / smaller than the configured population_size
+        obs.append(Ob(f"history[rebind,k=3,cycles=1,{d},ps=2]", ob_history("rebind", 3, 1, d, ps=2), 600))
+        obs.append(Ob(f"history[rebind,k=2,cycles=1,{d},ps=5]", ob_history("rebind", 2, 1, d, ps=5), 600))
     for g in range(1, (3 if th else 2) + 1):
         for k in range(1, 4):
             if g == 3 and k == 3 and not th:
